@@ -520,7 +520,14 @@ class Calls(object):
                     raise Outside("str.%s argument of type %s" % (name, a.t))
             rt = self.fx.parse_type(rt)
             f = cx.func("str_%s%d" % (name, len(args)), *([cx.Str] + [a.t.sort(cx) for a in args] + [rt.sort(cx)]))
-            return SV(f(recv.e, *[a.e for a in args]), rt)
+            r = f(recv.e, *[a.e for a in args])
+            if name == "count" and len(args) == 1:
+                # assumed facts about str.count: non-negative, positive iff the (non-empty) substring occurs
+                st.assume(r >= 0)
+                st.assume((r > 0) == self.fx.lib.str_contains(recv.e, args[0].e))
+            if name in ("startswith", "endswith") and len(args) == 1:
+                st.assume(z3.Implies(r, self.fx.lib.str_contains(recv.e, args[0].e)))
+            return SV(r, rt)
         raise Outside("str method %s" % name)
 
     # ------------------------------------------------------------------ contracted calls
